@@ -33,11 +33,14 @@ Proof. reflexivity. Qed.
 
 (* ====================================================================== 2. shuffle of a whole array *)
 Lemma shuffle_arr_roundtrip arr w h :
-  0 < w -> 0 <= h -> bytes arr -> len arr = 4 * w * h ->
+  0 <= w -> 0 <= h -> bytes arr -> len arr = 4 * w * h ->
   exists e, shuffle_arr shuffle_row arr w h = Ok e /\ len e = 4 * w * h /\ bytes e /\
             shuffle_arr (restore_row (Z.to_nat w)) e w h = Ok arr.
 Proof.
-  intros Hw Hh HB HL.
+  intros Hw0 Hh HB HL.
+  destruct (Z.eq_dec w 0) as [-> | Hne].
+  { exists arr. unfold shuffle_arr. cbn [Z.eqb]. repeat split; assumption. }
+  assert (Hw : 0 < w) by lia.
   assert (HN : (Z.to_nat h * Z.to_nat (4 * w) <= length arr)%nat) by (unfold len in HL; nia).
   assert (W4 : Z.to_nat (4 * w) = (4 * Z.to_nat w)%nat) by lia.
   exists (map_rows shuffle_row (Z.to_nat h) (Z.to_nat (4 * w)) arr).
@@ -59,12 +62,12 @@ Qed.
 
 (* ====================================================================== 3. prediction round trip *)
 Theorem prediction_roundtrip : forall data w h depth,
-  (depth = 8 \/ depth = 16 \/ depth = 32) -> 0 <= w -> 0 <= h -> (depth = 32 -> 0 < w) ->
+  (depth = 8 \/ depth = 16 \/ depth = 32) -> 0 <= w -> 0 <= h ->
   bytes data -> len data = w * h * (depth / 8) ->
   exists e, encode_prediction data w h depth = Ok e /\ len e = len data /\
             decode_prediction e w h depth = Ok data.
 Proof.
-  intros data w h depth Hd Hw Hh H32 HB HL.
+  intros data w h depth Hd Hw Hh HB HL.
   destruct Hd as [-> | [-> | ->]].
   - (* 8 bits *)
     change (8 / 8) with 1 in HL.
@@ -87,7 +90,7 @@ Proof.
       rewrite unwords2_words2 by assumption.
       repeat split. unfold len in *. rewrite unwords2_length. lia.
   - (* 32 bits *)
-    change (32 / 8) with 4 in HL. specialize (H32 eq_refl).
+    change (32 / 8) with 4 in HL.
     destruct (shuffle_arr_roundtrip data w h) as (a & E1 & L1 & B1 & D1); try lia; [exact HB|].
     destruct (delta_arr_roundtrip 256 a (w * 4) h) as (e & E2 & L2 & R2 & D2); try lia; [exact B1|].
     exists e. unfold encode_prediction, decode_prediction. cbn [Z.eqb Pos.eqb].
@@ -177,11 +180,11 @@ Proof.
 Qed.
 
 Theorem roundtrip_rle : forall data w h depth version e,
-  raster data w h depth -> 0 < w ->
+  raster data w h depth ->
   compress zc RLE data w h depth version = Ok e ->
   decompress zd rdec RLE e w h depth version = Ok data.
 Proof.
-  intros data w h depth version e (Hd & Hw & Hh & HB & HL) Hpos HE. unfold decompress.
+  intros data w h depth version e (Hd & Hw & Hh & HB & HL) HE. unfold decompress.
   cbn [compress] in HE.
   rewrite (rle_roundtrip rdec rdec_conforming data w h depth version e); try assumption.
   - cbn [bind]. apply final_check; assumption.
@@ -189,13 +192,13 @@ Proof.
 Qed.
 
 Theorem roundtrip_zipp : forall data w h depth version,
-  raster data w h depth -> depth <> 1 -> (depth = 32 -> 0 < w) ->
+  raster data w h depth -> depth <> 1 ->
   exists e, compress zc ZIPP data w h depth version = Ok e /\
             decompress zd rdec ZIPP e w h depth version = Ok data.
 Proof.
-  intros data w h depth version (Hd & Hw & Hh & HB & HL) H1 H32.
+  intros data w h depth version (Hd & Hw & Hh & HB & HL) H1.
   destruct Hd as [-> | Hd]; [congruence|].
-  destruct (prediction_roundtrip data w h depth Hd Hw Hh H32 HB) as (e & E & L & D).
+  destruct (prediction_roundtrip data w h depth Hd Hw Hh HB) as (e & E & L & D).
   { rewrite HL, (row_size_bytes w depth Hd). lia. }
   exists (zc e). cbn [compress]. rewrite E. cbn [bind]. split; [reflexivity|].
   unfold decompress, unzip. rewrite zlib_inverse. cbn [bind]. rewrite D. cbn [bind].
@@ -207,50 +210,29 @@ Theorem zipp_1bit_rejected : forall data w h version,
   compress zc ZIPP data w h 1 version = Err ValueErr.
 Proof. reflexivity. Qed.
 
-(* one statement for the four codecs.  [zero_ok]: the exact class left out by the guard is F-C04-2 *)
-Definition codec_guard (c : codec) (w h depth : Z) : Prop :=
+(* one statement for the four codecs: the only guard left is that ZIP with prediction has no 1-bit form *)
+Definition codec_guard (c : codec) (depth : Z) : Prop :=
   match c with
-  | RAW | ZIP => True
-  | RLE => 0 < w \/ h = 0
-  | ZIPP => depth <> 1 /\ (depth = 32 -> 0 < w)
+  | RAW | ZIP | RLE => True
+  | ZIPP => depth <> 1
   end.
 
-Lemma rle_zero_height : forall data w depth version,
-  len data = 0 ->
-  compress zc RLE data w 0 depth version = Ok [] /\
-  decompress zd rdec RLE [] w 0 depth version = Ok [] /\ data = [].
-Proof.
-  intros data w depth version HL.
-  assert (data = []) by (destruct data; [reflexivity|unfold len in HL; cbn [length] in HL; lia]).
-  subst data. repeat split.
-  unfold decompress, decode_rle. cbn [Z.to_nat Nat.mul firstn skipn length].
-  rewrite Nat.mod_0_l by (pose proof (cw_pos version); lia). cbn [Nat.eqb negb].
-  unfold chunks. cbn [length chunks_go map dec_rows bind].
-  replace (w * 0 * Z.max 1 (depth / 8)) with 0 by lia. unfold len. cbn [length Z.of_nat Z.eqb negb].
-  rewrite andb_false_r. reflexivity.
-Qed.
-
 Theorem roundtrip : forall c data w h depth version e,
-  raster data w h depth -> codec_guard c w h depth ->
+  raster data w h depth -> codec_guard c depth ->
   compress zc c data w h depth version = Ok e ->
   decompress zd rdec c e w h depth version = Ok data.
 Proof.
   intros c data w h depth version e R G HE. destruct c.
   - cbn [compress] in HE. inversion HE; subst e. apply roundtrip_raw. exact R.
-  - destruct G as [G | ->].
-    + apply roundtrip_rle; assumption.
-    + destruct R as (Hd & Hw & Hh & HB & HL).
-      destruct (rle_zero_height data w depth version) as (C & D & ->); [lia|].
-      rewrite C in HE. inversion HE; subst e. exact D.
+  - apply roundtrip_rle; assumption.
   - cbn [compress] in HE. inversion HE; subst e. apply roundtrip_zip. exact R.
-  - destruct G as [G1 G2].
-    destruct (roundtrip_zipp data w h depth version R G1 G2) as (e' & C & D).
+  - destruct (roundtrip_zipp data w h depth version R G) as (e' & C & D).
     rewrite C in HE. inversion HE; subst e. exact D.
 Qed.
 
 (* ====================================================================== 5. containers *)
 Theorem channel_data_roundtrip : forall cd cd' data w h depth version,
-  raster data w h depth -> codec_guard (cd_comp cd) w h depth ->
+  raster data w h depth -> codec_guard (cd_comp cd) depth ->
   cd_set_data zc cd data w h depth version = Ok cd' ->
   cd_get_data zd rdec cd' w h depth version = Ok data.
 Proof.
@@ -280,7 +262,7 @@ Theorem image_data_roundtrip : forall c planes hd e,
   depth_ok depth -> 0 <= w -> 0 <= h -> 0 < ch ->
   Z.of_nat (length planes) = ch ->
   Forall bytes planes -> Forall (fun p => len p = h * row_size w depth) planes ->
-  codec_guard c w (h * ch) depth ->
+  codec_guard c depth ->
   id_set_data zc c planes hd = Ok e ->
   id_get_data zd rdec c e hd = Ok planes.
 Proof.
@@ -300,7 +282,7 @@ Qed.
 
 (* pattern channel: geometry stored in the rectangle, always file version 1 *)
 Theorem vma_roundtrip : forall c data w h depth v,
-  raster data w h depth -> codec_guard c w h depth ->
+  raster data w h depth -> codec_guard c depth ->
   vm_set_data zc (w, h) data depth c = Ok v ->
   vm_get_data zd rdec v = Some (Ok data).
 Proof.
@@ -323,7 +305,7 @@ Qed.
 
 (* ... and compress does succeed, unless an RLE row cannot be counted in the table *)
 Theorem compress_ok : forall zc c data w h depth version,
-  raster data w h depth -> codec_guard c w h depth ->
+  raster data w h depth -> codec_guard c depth ->
   (c = RLE -> 128 * row_size w depth + 126 < 127 * cmax version) ->
   exists e, compress zc c data w h depth version = Ok e.
 Proof.
@@ -333,9 +315,9 @@ Proof.
     apply compress_rle_ok; [exact Hw| |apply F; reflexivity].
     destruct Hd as [-> | [-> | [-> | ->]]]; lia.
   - eexists; reflexivity.
-  - destruct G as [G1 G2]. destruct R as (Hd & Hw & Hh & HB & HL).
+  - destruct R as (Hd & Hw & Hh & HB & HL). cbn [codec_guard] in G.
     destruct Hd as [-> | Hd]; [congruence|].
-    destruct (prediction_roundtrip data w h depth Hd Hw Hh G2 HB) as (e & E & _).
+    destruct (prediction_roundtrip data w h depth Hd Hw Hh HB) as (e & E & _).
     { rewrite HL, (row_size_bytes w depth Hd). lia. }
     exists (zc e). cbn [compress]. rewrite E. reflexivity.
 Qed.
